@@ -137,6 +137,16 @@ class SolverSeam:
             f = getattr(sl, name)
             self.orig["scipy.linalg." + name] = f
             setattr(sl, name, self._wrap_direct("scipy.linalg." + name, f, sparse=False))
+        import scipy.linalg.lapack as sll
+
+        self._lapack_names = []
+        for name in ("dgtsv", "sgtsv", "dptsv", "dgbsv", "dgesv", "dposv"):
+            f = getattr(sll, name, None)
+            if f is None:
+                continue
+            self.orig["scipy.linalg.lapack." + name] = f
+            setattr(sll, name, self._wrap_lapack("scipy.linalg.lapack." + name, f))
+            self._lapack_names.append(name)
         f = npl.solve
         self.orig["numpy.linalg.solve"] = f
         w = self._wrap_direct("numpy.linalg.solve", f, sparse=False)
@@ -149,6 +159,7 @@ class SolverSeam:
         self.wrappers_by_name = {
             **{wrappers[i][0]: wrappers[i][1] for i in wrappers},
             **{"scipy.linalg." + n: getattr(sl, n) for n in DENSE},
+            **{"scipy.linalg.lapack." + n: getattr(sll, n) for n in self._lapack_names},
             "numpy.linalg.solve": w,
         }
         self.installed = True
@@ -300,6 +311,46 @@ class SolverSeam:
             seam._record(idx=idx, solver=name, kind="direct", site=site, fault=None, A=Arec,
                          b=np.array(b, dtype=float, copy=True), x=np.array(x, copy=True), info=None, kw={})
             return x
+
+        wrapper.__name__ = name.rsplit(".", 1)[-1]
+        wrapper.__wrapped__ = orig
+        return wrapper
+
+    def _wrap_lapack(self, name, orig):
+        """LAPACK drivers (?gtsv, ?ptsv, ?gbsv, ?gesv, ?posv): the result tuple ends with (..., x, info);
+        info > 0 means a singular / not positive definite matrix and an unusable x."""
+        seam = self
+
+        def wrapper(*args, **kw):
+            if not seam.active:
+                return orig(*args, **kw)
+            site = seam._site()
+            if site is None:
+                return orig(*args, **kw)
+            idx = seam.ncalls
+            seam.ncalls += 1
+            spec = seam.plan.get(idx)
+            bvec = args[-1] if args else None
+            if spec is not None:
+                fault = spec["kind"]
+                seam.fired.append({"kind": fault, "call": idx, "solver": name})
+                if fault == "F-solver-raise":
+                    seam._record(idx=idx, solver=name, kind="lapack", site=site, fault=fault,
+                                 A=None, b=None, x=None, info=None, kw={})
+                    raise _exc(spec)
+                if fault == "S-lapack-info":
+                    out = list(orig(*args, **kw))
+                    out[-1] = int(spec.get("info_pos", 1))
+                    out[-2] = np.array(bvec, dtype=float, copy=True)  # factorisation stopped: x was never computed
+                    seam._record(idx=idx, solver=name, kind="lapack", site=site, fault=fault, A=None,
+                                 b=np.array(bvec, dtype=float, copy=True), x=np.array(out[-2], copy=True), info=out[-1], kw={})
+                    return tuple(out)
+                raise RuntimeError(f"fault kind {fault} not applicable to a LAPACK driver")
+            out = orig(*args, **kw)
+            seam._record(idx=idx, solver=name, kind="lapack", site=site, fault=None, A=None,
+                         b=None if bvec is None else np.array(bvec, dtype=float, copy=True),
+                         x=np.array(out[-2], copy=True), info=int(out[-1]), kw={})
+            return out
 
         wrapper.__name__ = name.rsplit(".", 1)[-1]
         wrapper.__wrapped__ = orig
